@@ -50,6 +50,52 @@ def must_pass(body, X, Y, T):
     return not (r & Y)
 
 
+_FEAS = {}
+
+
+def feasible_paths(body):
+    """The block sequences of the feasible paths of `body` (kvlib.paths.explore), cached; None when there are too many."""
+    key = id(body)
+    if key not in _FEAS:
+        from .paths import explore
+        try:
+            _FEAS[key] = [p.blocks for p in explore(body, max_states=60000)]
+        except RuntimeError:
+            _FEAS[key] = None
+    return _FEAS[key]
+
+
+def must_pass_f(body, Y, T):
+    """MUST, on feasible paths from the entry: every path that reaches a Y block has passed a T block before (or is at one).
+    Same as must_pass(body, [0], Y, T) for code without correlated branches; with a predicate helper spliced in
+    (`if self.handle_error(out) { return }`: the helper's `false` and the caller's `return` arm meet in the CFG) only this
+    one is right.  Falls back to the CFG version when the function has too many paths."""
+    ps = feasible_paths(body)
+    if ps is None:
+        return must_pass(body, [0], Y, T)
+    Y = set(Y)
+    T = set(T)
+    for blocks in ps:
+        for i, x in enumerate(blocks):
+            if x in Y:
+                if not (T & set(blocks[:i + 1])):
+                    return False
+                break
+    return True
+
+
+def feasible_after(body, bb):
+    """Blocks that follow `bb` on some feasible path (bb included); CFG reachability when there are too many paths."""
+    ps = feasible_paths(body)
+    if ps is None:
+        return body.reachable([bb])
+    out = set()
+    for blocks in ps:
+        if bb in blocks:
+            out |= set(blocks[blocks.index(bb):])
+    return out
+
+
 def always_before(body, A, b):
     """On every *feasible* path (kvlib.paths.explore: path-sensitive about `?` on the results of spliced-in helpers, constant
     temporaries, tracked flags) that reaches block b, one of the blocks A was passed earlier.  Dominance says the same for
